@@ -32,10 +32,36 @@ Fixpoint first_failure (sc : script) (body : list stage) : option ecls :=
 
 Inductive ending :=
 | Done                (* exit status 0 *)
-| Exit (code : N)     (* sys.exit(code) from an except clause *)
+| Exit (code : N)     (* sys.exit(code) from an except clause: a diagnostic was printed *)
 | Uncaught (e : ecls). (* traceback (or argparse's SystemExit) *)
 
 Record outcome := mkOut { o_end : ending; o_removed : bool }.
+
+(* what leaves a statement of a try body *)
+Inductive raised := RaisedE (e : ecls) | RaisedExit (code : N).
+
+Definition apply_handlers (hs : list (ecls * action)) (e : ecls) : raised :=
+  match find_handler hs e with
+  | Some (AExit n) => RaisedExit n
+  | Some (AReraise e') => RaisedE e'
+  | Some ARaiseSame => RaisedE e
+  | None => RaisedE e
+  end.
+
+Definition step_raise (sc : script) (st : step) : option raised :=
+  match st with
+  | SPlain s => match sc s with Some e => Some (RaisedE e) | None => None end
+  | STry body hs => match first_failure sc body with
+                    | Some e => Some (apply_handlers hs e)
+                    | None => None
+                    end
+  end.
+
+Fixpoint body_raise (sc : script) (body : list step) : option raised :=
+  match body with
+  | [] => None
+  | st :: r => match step_raise sc st with Some x => Some x | None => body_raise sc r end
+  end.
 
 Fixpoint run_items (user del : bool) (sc : script) (items : list item) (removed : bool) : outcome :=
   match items with
@@ -48,13 +74,13 @@ Fixpoint run_items (user del : bool) (sc : script) (items : list item) (removed 
            end
   | Try body hs fin :: r =>
       let removed' := if fin && del then true else removed in
-      match first_failure sc body with
+      match body_raise sc body with
       | None => run_items user del sc r removed'
-      | Some e =>
-          match find_handler hs e with
-          | Some (AExit n) => mkOut (Exit n) removed'
-          | Some (AReraise e') => mkOut (Uncaught e') removed'
-          | None => mkOut (Uncaught e) removed'
+      | Some (RaisedExit n) => mkOut (Exit n) removed'    (* SystemExit passes every except clause *)
+      | Some (RaisedE e) =>
+          match apply_handlers hs e with
+          | RaisedExit n => mkOut (Exit n) removed'
+          | RaisedE e' => mkOut (Uncaught e') removed'
           end
       end
   end.
@@ -68,7 +94,7 @@ Fixpoint stages_before_fin (user : bool) (items : list item) : list stage :=
   | [] => []
   | Plain s only_user :: r =>
       if only_user && negb user then stages_before_fin user r else s :: stages_before_fin user r
-  | Try body _ fin :: r => if fin then [] else body ++ stages_before_fin user r
+  | Try body _ fin :: r => if fin then [] else body_stages body ++ stages_before_fin user r
   end.
 
 Fixpoint has_fin (items : list item) : bool :=
@@ -82,10 +108,32 @@ Fixpoint protected (items : list item) : list stage :=
   match items with
   | [] => []
   | Plain _ _ :: r => protected r
-  | Try body _ fin :: r => (if fin then body else []) ++ protected r
+  | Try body _ fin :: r => (if fin then body_stages body else []) ++ protected r
   end.
 
 Definition mem_stage (s : stage) (l : list stage) : bool := existsb (stage_eqb s) l.
+
+(* the stage calls of a run in execution order *)
+Fixpoint exec_order (user : bool) (items : list item) : list stage :=
+  match items with
+  | [] => []
+  | Plain s only_user :: r => if only_user && negb user then exec_order user r else s :: exec_order user r
+  | Try body _ _ :: r => body_stages body ++ exec_order user r
+  end.
+
+Fixpoint first_fail (sc : script) (l : list stage) : option (stage * ecls) :=
+  match l with
+  | [] => None
+  | s :: r => match sc s with Some e => Some (s, e) | None => first_fail sc r end
+  end.
+
+Definition ending_eqb (a b : ending) : bool :=
+  match a, b with
+  | Done, Done => true
+  | Exit n, Exit m => N.eqb n m
+  | Uncaught e, Uncaught e' => ecls_eqb e e'
+  | _, _ => false
+  end.
 
 (* scripts as finite tables (extraction / witnesses) *)
 Fixpoint script_of (t : list (stage * ecls)) : script :=
@@ -97,3 +145,14 @@ Fixpoint script_of (t : list (stage * ecls)) : script :=
 (* the two front ends, over the facts generated from /repo's current source *)
 Definition run_cli (user : bool) (sc : script) : outcome := run cli_flow user sc.
 Definition run_bzl (user : bool) (sc : script) : outcome := run bzl_flow user sc.
+
+(* does the failure of stage s with class e (everything before it succeeding) end in a
+   diagnostic and exit status 1?  computed from the generated handler table *)
+Definition cli_diagnosed (user : bool) (s : stage) (e : ecls) : bool :=
+  ending_eqb (o_end (run_cli user (script_of [(s, e)]))) (Exit 1).
+Definition all_stages : list stage := [SInputs; SExtraParams; SConstraints; SBuildRepo; SCompile; SSetupReqs; SWrite].
+Definition handled_classes : list ecls := [EValueError; ERepoInit; ENoCandidate; EMetadata].
+(* the (stage, class) pairs among the handled classes that still end in a traceback *)
+Definition cli_traceback_pairs (user : bool) : list (stage * ecls) :=
+  filter (fun p => mem_stage (fst p) (exec_order user (f_items cli_flow)) && negb (cli_diagnosed user (fst p) (snd p)))
+         (list_prod all_stages handled_classes).
